@@ -22,8 +22,12 @@ def joinSemi : List Text → Text
   | [p] => p
   | p :: q :: ps => p ++ ';' :: joinSemi (q :: ps)
 
-/-- the characters of the control sequence `ESC [ p1;...;pn I* F` -/
-def csiSeq (ps : List Text) (is : Text) (c : Char) : Text := [ESC, '['] ++ joinSemi ps ++ is ++ [c]
+/-- the control sequence introducer: 7-bit `ESC [` or 8-bit `0x9b` -/
+def csiIntro (eight : Bool) : Text := if eight then [CSI8] else [ESC, '[']
+
+/-- the characters of the control sequence `CSI p1;...;pn I* F` -/
+def csiSeq (eight : Bool) (ps : List Text) (is : Text) (c : Char) : Text :=
+  csiIntro eight ++ joinSemi ps ++ is ++ [c]
 
 /-! ### `peel` on text followed by anything -/
 
@@ -53,9 +57,9 @@ theorem findEsc2_append_free {t : Text} (ht : NoIntro t) (rest : Text) :
     rw [ih (fun x hx => ht x (by simp [hx]))]
     cases findEsc2 rest <;> simp
 
-theorem peel_append_free {t : Text} (ht : NoIntro t) (rest : Text) :
-    peel (t ++ rest) = (t ++ (peel rest).1, (peel rest).2.1, (peel rest).2.2) := by
-  unfold peel
+theorem peelMatch_append_free {t : Text} (ht : NoIntro t) (rest : Text) :
+    peelMatch (t ++ rest) = (t ++ (peelMatch rest).1, (peelMatch rest).2.1, (peelMatch rest).2.2) := by
+  unfold peelMatch
   rw [findCsi_append_free ht, findEsc2_append_free ht]
   cases h1 : findCsi rest with
   | none =>
@@ -70,6 +74,16 @@ theorem peel_append_free {t : Text} (ht : NoIntro t) (rest : Text) :
       split <;> rfl
 
 
+
+theorem peel_append_free (md : Nat) {t : Text} (ht : NoIntro t) (rest : Text) :
+    peel md (t ++ rest) =
+      match peel md rest with
+      | .error e => .error e
+      | .ok r => .ok (t ++ r.1, r.2.1, r.2.2) := by
+  unfold peel
+  rw [peelMatch_append_free ht]
+  simp only []
+  cases postToken md (peelMatch rest).2.1 <;> rfl
 
 /-! ### the numbers group on `p1;...;pn` -/
 
@@ -147,8 +161,25 @@ theorem splitSemi_join {p : Text} {ps : List Text} (hps : ∀ q ∈ p :: ps, Dig
     rw [ih (fun x hx => hps x (by simp [hx]))]
     simp
 
-theorem postNumbers_join {ps : List Text} (hps : ∀ p ∈ ps, DigStr p) :
-    postNumbers (joinSemi ps) = if ps = [] then .raw [] else .ints (ps.map intOf) := by
+/-- `int()` accepts the string: within the digit limit `md` (0 = no limit). -/
+def LenOK (md : Nat) (p : Text) : Prop := md = 0 ∨ p.length ≤ md
+
+theorem intsOf_ok {md : Nat} {ps : List Text} (h : ∀ p ∈ ps, LenOK md p) : intsOf md ps = .ok (ps.map intVal) := by
+  induction ps with
+  | nil => rfl
+  | cons p ps ih =>
+    have hp : intOf md p = .ok (intVal p) := by
+      unfold intOf
+      rw [if_neg]
+      rcases h p (by simp) with h0 | h1 <;> omega
+    simp only [intsOf, hp, ih (fun q hq => h q (by simp [hq])), List.map_cons]
+
+theorem postNumbers_join_all {md : Nat} {ps : List Text} (hps : ∀ p ∈ ps, DigStr p) :
+    postNumbers md (joinSemi ps) =
+      if ps = [] then .ok (.raw []) else
+        match intsOf md ps with
+        | .error e => .error e
+        | .ok l => .ok (.ints l) := by
   cases ps with
   | nil => simp [postNumbers, joinSemi, splitSemi]
   | cons p ps =>
@@ -158,7 +189,13 @@ theorem postNumbers_join {ps : List Text} (hps : ∀ p ∈ ps, DigStr p) :
       have := (hps q hq).1
       cases q <;> simp at this ⊢
     simp only [postNumbers, splitSemi_join hps, List.nil_append, hall, if_true]
-    simp
+    rw [if_neg (by simp)]
+    cases intsOf md (p :: ps) <;> rfl
+
+theorem postNumbers_join {md : Nat} {ps : List Text} (hps : ∀ p ∈ ps, DigStr p) (hl : ∀ p ∈ ps, LenOK md p) :
+    postNumbers md (joinSemi ps) = .ok (if ps = [] then .raw [] else .ints (ps.map intVal)) := by
+  rw [postNumbers_join_all hps, intsOf_ok hl]
+  split <;> simp [*]
 
 /-! ### m1 on a printed control sequence -/
 
@@ -197,45 +234,56 @@ theorem stops_tail {is : Text} (hi : ∀ x ∈ is, isIntermed x = true) {c : Cha
     simp only [List.cons_append, List.cons.injEq] at h
     rw [← h.1]; exact intermed_stops (hi i (by simp))
 
-/-- The token `peel` produces for `ESC [ p1;...;pn I* F`. -/
-def csiToken (ps : List Text) (is : Text) (c : Char) : Token :=
-  ⟨[ESC, '['], some (if ps = [] then .raw [] else .ints (ps.map intOf)), is, c, csiSeq ps is c⟩
+/-- The groupdict m1 yields for `CSI p1;...;pn I* F` (numbers still the matched str). -/
+def rawToken (eight : Bool) (ps : List Text) (is : Text) (c : Char) : Token :=
+  ⟨csiIntro eight, some (.raw (joinSemi ps)), is, c, csiSeq eight ps is c⟩
 
-theorem csiBody_csiSeq {ps : List Text} (hps : ∀ p ∈ ps, DigStr p) {is : Text}
+theorem csiBody_csiSeq (eight : Bool) {ps : List Text} (hps : ∀ p ∈ ps, DigStr p) {is : Text}
     (hi : ∀ x ∈ is, isIntermed x = true) {c : Char} (hc : isFinal c = true) (rest : Text) :
-    csiBody [ESC, '['] (joinSemi ps ++ (is ++ c :: rest)) = some (csiToken ps is c, rest) := by
+    csiBody (csiIntro eight) (joinSemi ps ++ (is ++ c :: rest)) = some (rawToken eight ps is c, rest) := by
   unfold csiBody
   simp only [numsLen_join hps (stops_tail hi hc rest)]
   rw [List.take_left', List.drop_left']
   · have h := takeWhile_stop (p := isIntermed) (a := is) (b := c :: rest) hi
       (fun y ys h => by cases h; exact final_not_intermed hc)
     rw [h.1, h.2]
-    simp [hc, csiToken, postNumbers_join hps, csiSeq]
+    simp [hc, rawToken, csiSeq]
   · rfl
   · rfl
 
-theorem peel_csiSeq {ps : List Text} (hps : ∀ p ∈ ps, DigStr p) {is : Text}
+theorem peelMatch_csiSeq (eight : Bool) {ps : List Text} (hps : ∀ p ∈ ps, DigStr p) {is : Text}
     (hi : ∀ x ∈ is, isIntermed x = true) {c : Char} (hc : isFinal c = true) (rest : Text) :
-    peel (csiSeq ps is c ++ rest) = ([], some (csiToken ps is c), rest) := by
-  have hm : matchCsiAt (csiSeq ps is c ++ rest) = some (csiToken ps is c, rest) := by
-    have := csiBody_csiSeq hps hi hc rest
-    simpa [csiSeq, matchCsiAt] using this
-  have h1 : findCsi (csiSeq ps is c ++ rest) = some ([], csiToken ps is c, rest) := by
-    have e : csiSeq ps is c ++ rest = ESC :: ('[' :: (joinSemi ps ++ is ++ [c] ++ rest)) := by simp [csiSeq]
-    rw [e] at hm ⊢
-    unfold findCsi
-    rw [hm]
-  have h2 : ∃ t2 r2, findEsc2 (csiSeq ps is c ++ rest) = some ([], t2, r2) := by
-    have e : csiSeq ps is c ++ rest = ESC :: ('[' :: (joinSemi ps ++ is ++ [c] ++ rest)) := by simp [csiSeq]
-    rw [e]
-    refine ⟨⟨[ESC], none, [], '[', [ESC, '[']⟩, joinSemi ps ++ is ++ [c] ++ rest, ?_⟩
-    simp only [findEsc2, matchEsc2At]
-    have hfe : isFe (Char.ofNat 91) = true := by decide
-    simp [hfe]
-  obtain ⟨t2, r2, h2⟩ := h2
-  simp [peel, h1, h2]
+    peelMatch (csiSeq eight ps is c ++ rest) = ([], some (rawToken eight ps is c), rest) := by
+  have hm : matchCsiAt (csiSeq eight ps is c ++ rest) = some (rawToken eight ps is c, rest) := by
+    have := csiBody_csiSeq eight hps hi hc rest
+    cases eight
+    · simpa [csiSeq, csiIntro, matchCsiAt] using this
+    · have hne : CSI8 ≠ ESC := by decide
+      simpa [csiSeq, csiIntro, matchCsiAt, hne] using this
+  have h1 : findCsi (csiSeq eight ps is c ++ rest) = some ([], rawToken eight ps is c, rest) := by
+    cases hs : csiSeq eight ps is c ++ rest with
+    | nil => rw [hs] at hm; simp [matchCsiAt] at hm
+    | cons x xs =>
+      rw [hs] at hm
+      unfold findCsi
+      rw [hm]
+  unfold peelMatch
+  rw [h1]
+  cases findEsc2 (csiSeq eight ps is c ++ rest) with
+  | none => rfl
+  | some m2 => simp
 
-
+/-- `peel_off_esc_code` on a printed control sequence followed by anything. -/
+theorem peel_csiSeq (md : Nat) (eight : Bool) {ps : List Text} (hps : ∀ p ∈ ps, DigStr p) {is : Text}
+    (hi : ∀ x ∈ is, isIntermed x = true) {c : Char} (hc : isFinal c = true) (rest : Text) :
+    peel md (csiSeq eight ps is c ++ rest) =
+      match postNumbers md (joinSemi ps) with
+      | .error e => .error e
+      | .ok v => .ok ([], some { rawToken eight ps is c with numbers := some v }, rest) := by
+  unfold peel
+  rw [peelMatch_csiSeq eight hps hi hc]
+  simp only [postToken, rawToken]
+  cases postNumbers md (joinSemi ps) <;> rfl
 
 /-! ### parseLoop on text / on a printed control sequence -/
 
@@ -247,39 +295,48 @@ theorem cells_front (cur : Atts) (f : Text) (ys : List Item) :
   | cons c f => simp [fromStrLoop, Chunk.cells]
 
 /-- Leading text free of ESC/0x9b: same outcome, the text is prepended with the initial format. -/
-theorem parseLoop_append_free {t : Text} (ht : NoIntro t) (rest : Text) :
-    (∀ e, parseLoop rest = .error e → parseLoop (t ++ rest) = .error e) ∧
-    (∀ its, parseLoop rest = .ok its → ∃ its', parseLoop (t ++ rest) = .ok its' ∧
+theorem parseLoop_append_free (md : Nat) {t : Text} (ht : NoIntro t) (rest : Text) :
+    (∀ e, parseLoop md rest = .error e → parseLoop md (t ++ rest) = .error e) ∧
+    (∀ its, parseLoop md rest = .ok its → ∃ its', parseLoop md (t ++ rest) = .ok its' ∧
       ∀ cur, cells (fromStrLoop cur its') = t.map (fun ch => (ch, cur)) ++ cells (fromStrLoop cur its)) := by
-  rw [parseLoop_eq rest, parseLoop_eq (t ++ rest), peel_append_free ht]
-  simp only []
-  cases tokenItems (peel rest).2.1 with
-  | error e => exact ⟨fun e' h => h, fun its h => by cases h⟩
-  | ok toks =>
+  rw [parseLoop_eq md rest, parseLoop_eq md (t ++ rest), peel_append_free md ht]
+  cases peel md rest with
+  | error e => exact ⟨fun e' h => h, fun its h => (by cases h)⟩
+  | ok r =>
     simp only []
-    cases parseLoop (peel rest).2.2 with
-    | error e => exact ⟨fun e' h => h, fun its h => by cases h⟩
-    | ok more =>
+    cases tokenItems r.2.1 with
+    | error e => exact ⟨fun e' h => h, fun its h => (by cases h)⟩
+    | ok toks =>
       simp only []
-      refine ⟨fun e h => (by cases h), fun its h => ⟨_, rfl, fun cur => ?_⟩⟩
-      cases h
-      rw [List.append_assoc, List.append_assoc, cells_front, cells_front]
-      simp
+      cases parseLoop md r.2.2 with
+      | error e => exact ⟨fun e' h => h, fun its h => (by cases h)⟩
+      | ok more =>
+        simp only []
+        refine ⟨fun e h => (by cases h), fun its h => ⟨_, rfl, fun cur => ?_⟩⟩
+        cases h
+        rw [List.append_assoc, List.append_assoc, cells_front, cells_front]
+        simp
 
-theorem parseLoop_csiSeq {ps : List Text} (hps : ∀ p ∈ ps, DigStr p) {is : Text}
+theorem parseLoop_csiSeq (md : Nat) (eight : Bool) {ps : List Text} (hps : ∀ p ∈ ps, DigStr p) {is : Text}
     (hi : ∀ x ∈ is, isIntermed x = true) {c : Char} (hc : isFinal c = true) (rest : Text) :
-    parseLoop (csiSeq ps is c ++ rest) =
-      match tokenItems (some (csiToken ps is c)) with
+    parseLoop md (csiSeq eight ps is c ++ rest) =
+      match postNumbers md (joinSemi ps) with
       | .error e => .error e
-      | .ok toks =>
-        match parseLoop rest with
+      | .ok v =>
+        match tokenItems (some { rawToken eight ps is c with numbers := some v }) with
         | .error e => .error e
-        | .ok more => .ok (toks ++ more) := by
-  rw [parseLoop_eq, peel_csiSeq hps hi hc]
-  simp only [List.isEmpty_nil, if_true, List.nil_append]
-  cases tokenItems (some (csiToken ps is c)) with
+        | .ok toks =>
+          match parseLoop md rest with
+          | .error e => .error e
+          | .ok more => .ok (toks ++ more) := by
+  rw [parseLoop_eq, peel_csiSeq md eight hps hi hc]
+  cases postNumbers md (joinSemi ps) with
   | error e => rfl
-  | ok toks => cases parseLoop rest <;> rfl
+  | ok v =>
+    simp only [List.isEmpty_nil, if_true, List.nil_append]
+    cases tokenItems (some { rawToken eight ps is c with numbers := some v }) with
+    | error e => rfl
+    | ok toks => cases parseLoop md rest <;> rfl
 
 /-! ### remove_ansi on text / on a printed control sequence -/
 
@@ -316,14 +373,10 @@ theorem final_not_param {c : Char} (h : isFinal c = true) : isParam c = false :=
   simp only [isFinal, isParam, Bool.and_eq_true, decide_eq_true_eq] at *
   simp; omega
 
-theorem ansiLen_csiSeq {ps : List Text} (hps : ∀ p ∈ ps, DigStr p) {is : Text}
+theorem ansiLen_csiSeq (eight : Bool) {ps : List Text} (hps : ∀ p ∈ ps, DigStr p) {is : Text}
     (hi : ∀ x ∈ is, isIntermed x = true) {c : Char} (hc : isFinal c = true) (rest : Text) :
-    ansiLen (csiSeq ps is c ++ rest) = some (csiSeq ps is c).length := by
-  have e : csiSeq ps is c ++ rest = ESC :: ('[' :: (joinSemi ps ++ (is ++ c :: rest))) := by simp [csiSeq]
-  rw [e]
+    ansiLen (csiSeq eight ps is c ++ rest) = some (csiSeq eight ps is c).length := by
   have hne : ESC ≠ CSI8 := by decide
-  simp only [ansiLen, hne, if_false, if_true]
-  unfold ansiBody
   have h1 := takeWhile_stop (p := isParam) (a := joinSemi ps) (b := is ++ c :: rest) (joinSemi_params hps)
     (fun y ys h => by
       cases is with
@@ -333,22 +386,41 @@ theorem ansiLen_csiSeq {ps : List Text} (hps : ∀ p ∈ ps, DigStr p) {is : Tex
         exact intermed_not_param (hi i (by simp)))
   have h2 := takeWhile_stop (p := isIntermed) (a := is) (b := c :: rest) hi
     (fun y ys h => by cases h; exact final_not_intermed hc)
-  simp only [h1.1, h1.2, h2.1, h2.2, hc, if_true]
-  simp [csiSeq]; omega
+  cases eight with
+  | false =>
+    have e : csiSeq false ps is c ++ rest = ESC :: ('[' :: (joinSemi ps ++ (is ++ c :: rest))) := by
+      simp [csiSeq, csiIntro]
+    rw [e]
+    simp only [ansiLen, hne, if_false, if_true]
+    unfold ansiBody
+    simp only [h1.1, h1.2, h2.1, h2.2, hc, if_true]
+    simp [csiSeq, csiIntro]; omega
+  | true =>
+    have e : csiSeq true ps is c ++ rest = CSI8 :: (joinSemi ps ++ (is ++ c :: rest)) := by
+      simp [csiSeq, csiIntro]
+    rw [e]
+    simp only [ansiLen, if_true]
+    unfold ansiBody
+    simp only [h1.1, h1.2, h2.1, h2.2, hc, if_true]
+    simp [csiSeq, csiIntro]; omega
 
-theorem removeAnsiAux_csiSeq {ps : List Text} (hps : ∀ p ∈ ps, DigStr p) {is : Text}
+theorem csiSeq_ne_nil (eight : Bool) (ps : List Text) (is : Text) (c : Char) : csiSeq eight ps is c ≠ [] := by
+  cases eight <;> simp [csiSeq, csiIntro]
+
+theorem removeAnsiAux_csiSeq (eight : Bool) {ps : List Text} (hps : ∀ p ∈ ps, DigStr p) {is : Text}
     (hi : ∀ x ∈ is, isIntermed x = true) {c : Char} (hc : isFinal c = true) (rest : Text) :
-    removeAnsiAux 0 (csiSeq ps is c ++ rest) = removeAnsiAux 0 rest := by
-  have hA := ansiLen_csiSeq hps hi hc rest
-  have e : csiSeq ps is c ++ rest = ESC :: ('[' :: (joinSemi ps ++ is ++ [c])) ++ rest := by simp [csiSeq]
-  rw [e] at hA ⊢
-  rw [List.cons_append, removeAnsiAux, ← List.cons_append, hA]
-  simp only []
-  rw [removeAnsiAux_skip]
-  congr 1
-  have : (csiSeq ps is c).length - 1 = ('[' :: (joinSemi ps ++ is ++ [c])).length := by simp [csiSeq]
-  rw [this, List.drop_left']
-  rfl
+    removeAnsiAux 0 (csiSeq eight ps is c ++ rest) = removeAnsiAux 0 rest := by
+  have hA := ansiLen_csiSeq eight hps hi hc rest
+  cases hq : csiSeq eight ps is c with
+  | nil => exact absurd hq (csiSeq_ne_nil _ _ _ _)
+  | cons x q =>
+    rw [hq] at hA
+    rw [List.cons_append] at hA ⊢
+    rw [removeAnsiAux, hA]
+    simp only []
+    rw [removeAnsiAux_skip]
+    congr 1
+    simp
 
 /-! ### "ESC[" in s -/
 
